@@ -984,7 +984,7 @@ func c03vDriverPath() string {
 	if err != nil {
 		return ""
 	}
-	p := filepath.Join(filepath.Dir(exe), "..", "..", "lean", ".lake", "build", "bin", "mgpudriver")
+	p := filepath.Join(filepath.Dir(exe), "..", "..", "lean", ".lake", "build", "bin", "drv_c03")
 	if _, err := os.Stat(p); err != nil {
 		return ""
 	}
